@@ -145,6 +145,14 @@ func encodeSplit(rng *hk.Rand, fs [][2]string) (frags [][]byte, perFrag [][][2]s
 // encodeSplitWith: enc writes into buf and may be shared by several blocks of one connection
 // (dynamic table carried from block to block, as a real peer does).
 func encodeSplitWith(rng *hk.Rand, fs [][2]string, enc *hpack.Encoder, buf *bytes.Buffer) (frags [][]byte, perFrag [][][2]string, atBoundary bool) {
+	frags, perFrag, atBoundary, _ = encodeSplitOpts(rng, fs, enc, buf, false)
+	return
+}
+
+// encodeSplitOpts: tear = cut the block inside its last field representation (when that is at least
+// two bytes long); torn reports whether that was done.  A dynamic table size update the encoder owes
+// (SetMaxDynamicTableSize before the call) comes out in front of the first field.
+func encodeSplitOpts(rng *hk.Rand, fs [][2]string, enc *hpack.Encoder, buf *bytes.Buffer, tear bool) (frags [][]byte, perFrag [][][2]string, atBoundary bool, torn bool) {
 	buf.Reset()
 	var ends []int
 	for _, f := range fs {
@@ -152,6 +160,18 @@ func encodeSplitWith(rng *hk.Rand, fs [][2]string, enc *hpack.Encoder, buf *byte
 		ends = append(ends, buf.Len())
 	}
 	block := append([]byte(nil), buf.Bytes()...)
+	if tear && len(ends) > 0 {
+		start := 0
+		if len(ends) > 1 {
+			start = ends[len(ends)-2]
+		}
+		if l := ends[len(ends)-1] - start; l >= 2 && len(ends) > 1 { // (the first field may carry the size update)
+			block = block[:start+rng.Range(1, l-1)]
+			fs = fs[:len(fs)-1]
+			ends = ends[:len(ends)-1]
+			torn = true
+		}
+	}
 	k := hk.Pick(rng, []int{1, 1, 2, 2, 3, 4})
 	atBoundary = rng.Chance(70)
 	cuts := []int{}
@@ -328,6 +348,7 @@ func runH2MetaSeq(r *hk.Run, rng *hk.Rand) {
 		enc := hpack.NewEncoder(&ebuf)
 		var wire []byte
 		var blocks [][][2]string
+		var blockTorn []bool
 		var coqBlocks []string
 		modelOK := true
 		maxList := hk.Pick(rng, []uint32{0, 1 << 16, 1 << 16, 400, 200, 120, 90})
@@ -341,8 +362,22 @@ func runH2MetaSeq(r *hk.Run, rng *hk.Rand) {
 			if rng.Chance(45) { // a clean response: the victim of whatever came before
 				fs = [][2]string{{":status", "200"}, {"server", hk.Pick(rng, h2Vals[:6])}, {hk.Pick(rng, h2Names), "v" + fmt.Sprint(b)}}
 			}
+			// the peer takes a new SETTINGS_HEADER_TABLE_SIZE into use: the block opens with a size update
+			su := false
+			if b > 0 && rng.Chance(30) {
+				enc.SetMaxDynamicTableSize(hk.Pick(rng, []uint32{0, 64, 1024, 4096, 2048}))
+				su = true
+			}
+			frags, perFrag, atB, torn := encodeSplitOpts(rng, fs, enc, &ebuf, rng.Chance(8))
+			if torn {
+				fs = fs[:len(fs)-1]
+				r.Count("h2.metaseq.torn-block")
+			}
+			if su {
+				r.Count("h2.metaseq.size-update")
+			}
 			blocks = append(blocks, fs)
-			frags, perFrag, atB := encodeSplitWith(rng, fs, enc, &ebuf)
+			blockTorn = append(blockTorn, torn)
 			sid := uint32(2*b + 1)
 			for j, fr := range frags {
 				var flags uint8
@@ -372,7 +407,7 @@ func runH2MetaSeq(r *hk.Run, rng *hk.Rand) {
 			for j := range frags {
 				xs = append(xs, hk.CoqPair(fmt.Sprint(len(frags[j])), coqStrPairs(perFrag[j])))
 			}
-			coqBlocks = append(coqBlocks, hk.CoqPair(fmt.Sprint(sid), hk.CoqList(xs)))
+			coqBlocks = append(coqBlocks, fmt.Sprintf("(%d, (%s, %s), %s)", sid, hk.CoqBool(su), hk.CoqBool(torn), hk.CoqList(xs)))
 		}
 		fo, ro := readMetaFork(wire, maxList, frames+1), readMetaRef(wire, maxList, frames+1)
 		desc := map[string]interface{}{"kind": "h2-meta-seq", "max_header_list_size": maxList, "blocks": fmt.Sprintf("%q", blocks), "wire": fmt.Sprintf("%x", capBytes(wire, 600))}
@@ -394,7 +429,10 @@ func runH2MetaSeq(r *hk.Run, rng *hk.Rand) {
 				continue
 			}
 			metas = append(metas, o)
-			if bi < len(blocks) && o.Err == "" && !o.Truncated {
+			if bi < len(blocks) && o.Err == "" && !o.Truncated && blockTorn[bi] {
+				r.Fail(hk.Failure{Sig: "h2:meta-seq:torn-block-delivered", What: "a header block that ends inside a field representation was delivered", Input: desc, Got: fmt.Sprintf("block %d: %q", bi, o.Fields)})
+			}
+			if bi < len(blocks) && o.Err == "" && !o.Truncated && !blockTorn[bi] {
 				if fmt.Sprint(o.Fields) != fmt.Sprint(blocks[bi]) {
 					sig := "h2:meta-seq:block-lost-fields"
 					if sawBad {
@@ -418,7 +456,7 @@ func runH2MetaSeq(r *hk.Run, rng *hk.Rand) {
 			for _, o := range metas {
 				obs = append(obs, o.coq())
 			}
-			c.Coq = fmt.Sprintf("H2MetaSeq %d %s %s", effMax, hk.CoqList(coqBlocks), hk.CoqList(obs))
+			c.Coq = fmt.Sprintf("H2MetaSeq2 %d %s %s", effMax, hk.CoqList(coqBlocks), hk.CoqList(obs))
 		}
 		r.Add(c, fmt.Sprint("h2ms|", maxList, "|", wire), true)
 	}
